@@ -463,8 +463,14 @@ def rule_root_idem(ctx: Ctx) -> RuleResult:
             continue
         roots = set()
         bad = None
+        import re as _re
+
+        def _canon(tpl: str) -> str:
+            # a placeholder without expression is resolva's default `[^/]*`: `{asset}` and `{asset:[^/]*}` are one template
+            return _re.sub(r"\{(\w+)\}", r"{\1:[^/]*}", tpl)
+
         for t in a:
-            ta, tb = a[t], b[t]
+            ta, tb = _canon(a[t]), _canon(b[t])
             i = 0
             while i < min(len(ta), len(tb)) and ta[-1 - i] == tb[-1 - i]:
                 i += 1
